@@ -28,6 +28,10 @@ mcvars == <<uvars, opi, tpc, tgot, slept>>
 S(v) == [op |-> "send", v |-> v, s |-> 0, max |-> 0]
 Dv(s, m) == [op |-> "drive", v |-> 0, s |-> s, max |-> m]
 X == [op |-> "cancel", v |-> 0, s |-> 0, max |-> 0]
+Rs == [op |-> "reserve", v |-> 0, s |-> 0, max |-> 0]
+Fi(i, v) == [op |-> "fill", v |-> v, s |-> i, max |-> 0]          \* s: position (from 1) in the thread's list of reservations
+Sr(i) == [op |-> "send_reserved", v |-> 0, s |-> i, max |-> 0]
+Cr(i) == [op |-> "cancel_reserved", v |-> 0, s |-> i, max |-> 0]
 Cl == [op |-> "close", v |-> 0, s |-> 0, max |-> 0]
 Dr(s) == [op |-> "drop", v |-> 0, s |-> s, max |-> 0]
 
@@ -36,6 +40,7 @@ Script_2p1c == << <<S(11)>>, <<S(21)>>, <<Dv(0, 2)>> >>
 Script_1p1c3 == << <<S(11), S(12), S(13)>>, <<Dv(0, 3)>> >>
 Script_cancel == << <<S(11)>>, <<X>>, <<Dv(0, 9)>> >>
 Script_2s == << <<S(11), S(12)>>, <<Dv(0, 9)>>, <<Dv(1, 9)>>, <<X>> >>
+Script_resv == << <<Rs, Fi(1, 11), Rs, Fi(2, 12), Cr(2), Sr(1), Rs, Fi(1, 13), Sr(1)>>, <<Dv(0, 2)>> >>
 Script_close == << <<S(11)>>, <<Cl>>, <<Dv(0, 9), Dr(0)>> >>
 Script_close_s2 == << <<S(11)>>, <<Cl>>, <<Dv(0, 9), Dr(0)>>, <<Dv(1, 9), Dr(1)>> >>
 
@@ -50,6 +55,10 @@ MCCall0(p) ==
     /\ LET o == CurOp(p) IN
        IF o.op = "send" THEN /\ CallSend(p, o.v) /\ opi' = [opi EXCEPT ![p] = @ + 1] /\ UNCHANGED <<tpc, tgot>>
        ELSE IF o.op = "cancel" THEN /\ CallCancel(p) /\ opi' = [opi EXCEPT ![p] = @ + 1] /\ UNCHANGED <<tpc, tgot>>
+       ELSE IF o.op = "reserve" THEN /\ CallReserve(p) /\ opi' = [opi EXCEPT ![p] = @ + 1] /\ UNCHANGED <<tpc, tgot>>
+       ELSE IF o.op = "fill" THEN /\ CallFill(p, o.s, o.v) /\ opi' = [opi EXCEPT ![p] = @ + 1] /\ UNCHANGED <<tpc, tgot>>
+       ELSE IF o.op = "send_reserved" THEN /\ CallSendReserved(p, o.s) /\ opi' = [opi EXCEPT ![p] = @ + 1] /\ UNCHANGED <<tpc, tgot>>
+       ELSE IF o.op = "cancel_reserved" THEN /\ CallCancelReserved(p, o.s) /\ opi' = [opi EXCEPT ![p] = @ + 1] /\ UNCHANGED <<tpc, tgot>>
        ELSE IF o.op = "close" THEN /\ CallClose(p) /\ opi' = [opi EXCEPT ![p] = @ + 1] /\ UNCHANGED <<tpc, tgot>>
        ELSE IF o.op = "drop" THEN /\ CallDrop(p, o.s) /\ opi' = [opi EXCEPT ![p] = @ + 1] /\ UNCHANGED <<tpc, tgot>>
        ELSE \* drive: the task clears its notification and is about to poll
@@ -107,7 +116,7 @@ MCSlept(p) == /\ Sleeping(p) /\ (~slept[p] \/ ~OthersCanRun(p))
 MCNext == \E p \in Procs : MCCall(p) \/ MCPoll(p) \/ MCUnpark(p) \/ MCOp(p) \/ MCSlept(p) \/ MCRet(p)
 
 -----------------------------------------------------------------------------
-Producing(p) == HasOp(p) /\ CurOp(p).op \in {"send", "cancel", "close", "drop"}
+Producing(p) == HasOp(p) /\ CurOp(p).op \in {"send", "cancel", "close", "drop", "reserve", "fill", "send_reserved", "cancel_reserved"}
 Driving(p) == HasOp(p) /\ CurOp(p).op = "drive"
 ProducersDone == \A p \in Procs : ~Producing(p) /\ (~Driving(p) => cpc[p] = "idle")
 Asleep(p) == Driving(p) /\ tpc[p] = "parked" /\ ~notified[CurOp(p).s]
